@@ -1,6 +1,6 @@
 (* C09 -- A silent peer is probed, then disconnected; a live peer never is. *)
 From Coq Require Import ZArith List.
-From SF Require Import Timer Timer_proofs Timer_loop Session Session_proofs.
+From SF Require Import Bytes Values Wire Parse Timer Timer_proofs Timer_loop Session Session_proofs Session_c09.
 Open Scope Z_scope.
 
 (* the inbound timer's timeout is N + max(1, N/20) seconds *)
@@ -119,3 +119,32 @@ Theorem C09_silent_peer_acted_on :
       exists e, (In e refs \/ In e (loop T fuel start refs ticks)) /\ x < e <= x + T + G.
 Proof. exact loop_never_silent. Qed.
 Print Assumptions C09_silent_peer_acted_on.
+
+(* ---- any message is a sign of life ----
+   DefaultHandler.serve offers every inbound message that carries a MsgType to the all-types pool
+   first.  While that pool holds only the session's own two hooks and accepting application handlers
+   (none of which ends the round), and the timer hook of some logon is among them, a session waiting
+   for the answer to its TestRequest has left the waiting state by the time the handlers of the
+   message's own type run -- whatever the type: a Heartbeat, a SequenceReset the session knows or does
+   not know, an application message, an unknown type. *)
+Theorem C09_any_message_is_a_sign_of_life :
+  forall cfg s d mt,
+    value_by_tag d tag_MsgType = Ok mt ->
+    Forall passes (pool_get (s_in s) ALL) -> (exists g, In (HTimerRefresh g) (pool_get (s_in s) ALL)) ->
+    s_state s = WaitingTestReqAnswer ->
+    exists s1 o1,
+      run_in_handlers cfg s (pool_get (s_in s) ALL) d = (s1, o1) /\ s_state s1 = SuccessfulLogged /\
+      serve cfg s d = (let '(s2, o2) := run_in_handlers cfg s1 (pool_get (s_in s1) mt) d in (s2, o1 ++ o2)).
+Proof. exact serve_all_round_clears_waiting. Qed.
+Print Assumptions C09_any_message_is_a_sign_of_life.
+
+(* the premises hold in a concrete probing state, and a gap fill as the peer's only sign of life ends
+   the probe without touching the inbound counter *)
+Theorem C09_sign_of_life_nonvacuous :
+  Forall passes (pool_get (s_in ex9_state) ALL)
+  /\ (exists g, In (HTimerRefresh g) (pool_get (s_in ex9_state) ALL))
+  /\ s_state ex9_state = WaitingTestReqAnswer
+  /\ s_state (fst (serve ex9_cfg ex9_state ex9_gapfill)) = SuccessfulLogged
+  /\ s_cnt_in (fst (serve ex9_cfg ex9_state ex9_gapfill)) = 3%Z.
+Proof. exact probing_example. Qed.
+Print Assumptions C09_sign_of_life_nonvacuous.
